@@ -11,7 +11,7 @@
     recursion.  [cmp_contract]: the sign of the comparison is antisymmetric
     and "<=" is transitive. *)
 From Cstl Require Import Prelude SortModel SortProofs SortHeapProofs SortSearchProofs
-  SortLogProofs SortTopProofs.
+  SortLogProofs SortTopProofs SwapModel SortReplayProofs SwapProofs.
 
 Section C11.
   Context {A : Type}.
@@ -127,6 +127,124 @@ Section C11.
   Proof. exact (sort_extra_irrelevant cmp sel extra extra' rnd a r). Qed.
 End C11.
 
+(** ** Byte level: cstl_swap (include/cstl/common.h) on the memory the array
+    code hands to it.
+
+    Reading guide (SwapModel.v): memory is a list of bytes [image chunks
+    scratch] = the count elements of sz bytes each, followed by the sz-byte
+    scratch element; addresses are offsets, [at_off sz i = i * sz]
+    (__cstl_raw_array_at), the scratch is at [at_off sz count]; every byte
+    access is checked ([Ub] outside the list, so [Ok] means that no byte
+    outside [0, (count+1)*sz) was touched); [bytes_swap m x y t sz] is
+    cstl_swap: the typed three-assignment exchange for sz = 1, 2, 4, 8 (a
+    typed access of width w reads / writes w bytes; alignment and effective
+    types are NOT modelled), three byte-by-byte memcpy calls otherwise
+    (overlapping ranges are [Ub]); [replay sz count m l] runs [bytes_swap]
+    for every [ESwap i j] of the element-level callback log [l];
+    [uniform sz chunks] = every element has sz bytes. *)
+Section C11_bytes.
+  Context {B : Type}.                      (* the type of a byte: only ever copied *)
+  Variable cmp : list B -> list B -> Z.   (* the comparison callback sees an element as its sz bytes *)
+  Hypothesis contract : cmp_contract cmp.
+  Notation le := (SortProofs.le cmp).
+
+  (** The callback log of a run determines its result: executing the swap
+      events of the log of any sort / reverse that returns, in order, on the
+      input array gives the output array (any element type). *)
+  Theorem C11_log_determines_result {A : Type} (cmpA : A -> A -> Z) sel extra rnd (a a' : list A) l :
+    (sort cmpA sel extra rnd a = Ok (a', l) \/ reverse a = Ok (a', l)) -> replay_elems a l = Ok a'.
+  Proof. intros [H|H]; [exact (sort_replay cmpA sel extra rnd a a' l H)|exact (reverse_replay a a' l H)]. Qed.
+
+  (** cstl_swap on two DISTINCT elements i, j of the array, any element size
+      (the four typed cases and the memcpy case; also sz = 0): it returns
+      without touching a byte outside array + scratch, the array part is
+      exactly the element-level swap - no other byte changes - and the
+      scratch holds the old element i (the first argument). *)
+  Theorem C11_swap_bytes sz (chunks : list (list B)) scratch i j ci chunks' :
+    uniform sz chunks -> length scratch = sz ->
+    nth_error chunks i = Some ci ->
+    swap chunks i j = Ok chunks' ->
+    bytes_swap (image chunks scratch) (at_off sz i) (at_off sz j) (at_off sz (length chunks)) sz
+    = Ok (image chunks' ci).
+  Proof. exact (bytes_swap_spec sz chunks scratch i j ci chunks'). Qed.
+
+  (** cstl_swap of an element with ITSELF (sz >= 1): with sz in {1,2,4,8} the
+      typed path leaves the array unchanged (the scratch receives the
+      element); with any other size the second memcpy copies a range onto
+      itself, which is undefined.  The element-level model calls every
+      self-swap [Ub]: conservative for the four typed sizes, exact otherwise. *)
+  Theorem C11_swap_bytes_self sz (chunks : list (list B)) scratch i ci :
+    1 <= sz -> uniform sz chunks -> length scratch = sz -> nth_error chunks i = Some ci ->
+    bytes_swap (image chunks scratch) (at_off sz i) (at_off sz i) (at_off sz (length chunks)) sz
+    = if (sz =? 1) || (sz =? 2) || (sz =? 4) || (sz =? 8) then Ok (image chunks ci) else Ub.
+  Proof. exact (bytes_swap_self sz chunks scratch i ci). Qed.
+
+  (** Refinement, over an abstract log: if the element-level replay of [l] on
+      [chunks] returns [chunks'] (so every swap of [l] is in range and not a
+      self-swap), the byte-level replay on the image of [chunks] returns
+      the image of [chunks'] (and some scratch content of sz bytes). *)
+  Theorem C11_replay_bytes sz l (chunks : list (list B)) scratch chunks' :
+    uniform sz chunks -> length scratch = sz ->
+    replay_elems chunks l = Ok chunks' ->
+    exists scratch', length scratch' = sz /\
+      replay sz (length chunks) (image chunks scratch) l = Ok (image chunks' scratch').
+  Proof. exact (replay_refines sz l chunks scratch chunks'). Qed.
+
+  (** ... with the scratch content stated exactly: [replay_elems_t] tracks it
+      (after a swap of (i, j) it is the old element i); shapes are preserved. *)
+  Theorem C11_replay_bytes_scratch sz l (chunks : list (list B)) scratch chunks' scratch' :
+    uniform sz chunks -> length scratch = sz ->
+    replay_elems_t chunks scratch l = Ok (chunks', scratch') ->
+    replay sz (length chunks) (image chunks scratch) l = Ok (image chunks' scratch') /\
+    uniform sz chunks' /\ length scratch' = sz /\ length chunks' = length chunks.
+  Proof. exact (replay_refines_t sz l chunks scratch chunks' scratch'). Qed.
+
+  (** Hence, for the C-level sort (QUICK, QUICK_M, HEAP, every out-of-range
+      selector; any array of sz-byte elements): the sequence of cstl_swap
+      calls it makes turns the bytes of the array into exactly the
+      concatenation of a sorted permutation of its elements; no byte outside
+      array + scratch is accessed. *)
+  Theorem C11_sort_bytes sz sel extra rnd (chunks : list (list B)) scratch :
+    sel <> 1%Z -> uniform sz chunks -> length scratch = sz ->
+    exists chunks' l scratch',
+      sort cmp sel extra rnd chunks = Ok (chunks', l) /\
+      Permutation chunks chunks' /\ Sorted le chunks' /\
+      replay sz (length chunks) (image chunks scratch) l = Ok (image chunks' scratch') /\
+      length scratch' = sz.
+  Proof.
+    intros Hs U HT. destruct (sort_det cmp contract sel extra rnd chunks Hs) as (a' & l & E & P & S & L).
+    destruct (sort_bytes cmp sz sel extra rnd chunks scratch a' l U HT E) as (t' & Lt & R).
+    exists a', l, t'. repeat split; auto. apply StronglySorted_Sorted; auto.
+  Qed.
+
+  (** every selector (QUICK_R included), every rand(), no contract: whenever
+      the run returns, the bytes are the image of the element-level result *)
+  Theorem C11_sort_bytes_any_run sz sel extra rnd (chunks : list (list B)) scratch chunks' l :
+    uniform sz chunks -> length scratch = sz ->
+    sort cmp sel extra rnd chunks = Ok (chunks', l) ->
+    exists scratch', length scratch' = sz /\
+      replay sz (length chunks) (image chunks scratch) l = Ok (image chunks' scratch').
+  Proof. exact (sort_bytes cmp sz sel extra rnd chunks scratch chunks' l). Qed.
+
+  (** reverse, count <= SSIZE_MAX: the bytes afterwards are the elements in
+      reverse order (each element's bytes in their original order) *)
+  Theorem C11_reverse_bytes sz (chunks : list (list B)) scratch :
+    (Z.of_nat (length chunks) <= smax 64)%Z -> uniform sz chunks -> length scratch = sz ->
+    exists l scratch', reverse chunks = Ok (rev chunks, l) /\ length scratch' = sz /\
+      replay sz (length chunks) (image chunks scratch) l = Ok (image (rev chunks) scratch').
+  Proof.
+    intros H U HT. destruct (reverse_correct chunks H) as (l & E).
+    destruct (reverse_bytes sz chunks scratch (rev chunks) l U HT E) as (t' & Lt & R).
+    exists l, t'. auto.
+  Qed.
+
+  (** the bytes determine the elements: [chop] cuts the memory back into
+      sz-byte elements, so equal images of equally shaped arrays are equal arrays *)
+  Theorem C11_image_injective sz (chunks : list (list B)) scratch :
+    uniform sz chunks -> chop sz (length chunks) (image chunks scratch) = chunks.
+  Proof. exact (chop_image sz chunks scratch). Qed.
+End C11_bytes.
+
 (** Non-vacuity: the contract is satisfiable (integer keys, comparison by
     difference as in the C driver's cmpmode 1), and the model runs: every
     selector sorts a concrete array with duplicates, search / find / reverse
@@ -150,6 +268,44 @@ Proof.
   intros sel [<-|[<-|[<-|[<-|[<-|[]]]]]]; vm_compute; reflexivity.
 Qed.
 
+(** Non-vacuity at byte level: 3 elements of 3 bytes (memcpy path) and of 4
+    bytes (typed path), bytes as numbers; every ordered pair (i, j) swaps
+    exactly the two elements and leaves element i in the scratch; a
+    self-swap is Ub for sz = 3 and the identity on the array for sz = 4; an
+    access outside the 12 / 16 bytes is Ub; replaying the log of a sort on
+    the bytes gives the sorted bytes. *)
+Example C11_bytes_example :
+  let m3 := [11; 12; 13;  21; 22; 23;  31; 32; 33;  0; 0; 0]%N in
+  let m4 := [11; 12; 13; 14;  21; 22; 23; 24;  31; 32; 33; 34;  0; 0; 0; 0]%N in
+  bytes_swap m3 (at_off 3 0) (at_off 3 2) (at_off 3 3) 3
+    = Ok [31; 32; 33;  21; 22; 23;  11; 12; 13;  11; 12; 13]%N /\
+  bytes_swap m3 (at_off 3 2) (at_off 3 1) (at_off 3 3) 3
+    = Ok [11; 12; 13;  31; 32; 33;  21; 22; 23;  31; 32; 33]%N /\
+  bytes_swap m4 (at_off 4 1) (at_off 4 0) (at_off 4 3) 4
+    = Ok [21; 22; 23; 24;  11; 12; 13; 14;  31; 32; 33; 34;  21; 22; 23; 24]%N /\
+  bytes_swap m3 (at_off 3 1) (at_off 3 1) (at_off 3 3) 3 = Ub /\
+  bytes_swap m4 (at_off 4 1) (at_off 4 1) (at_off 4 3) 4
+    = Ok [11; 12; 13; 14;  21; 22; 23; 24;  31; 32; 33; 34;  21; 22; 23; 24]%N /\
+  bytes_swap m3 (at_off 3 0) (at_off 3 3) (at_off 3 4) 3 = Ub /\
+  bytes_swap m4 (at_off 4 0) (at_off 4 1) (at_off 4 4) 4 = Ub /\
+  (let cmp := fun x y : list N => (Z.of_N (hd 0%N x) - Z.of_N (hd 0%N y))%Z in
+   let chunks := [[31; 32; 33]; [11; 12; 13]; [21; 22; 23]]%N in
+   uniform 3 chunks /\ image chunks [0; 0; 0]%N = [31; 32; 33;  11; 12; 13;  21; 22; 23;  0; 0; 0]%N /\
+   forall sel, In sel [0; 2; 3; 7]%Z ->
+     match sort cmp sel 0 (fun _ => 0%N) chunks with
+     | Ok (chunks', l) =>
+       chunks' = [[11; 12; 13]; [21; 22; 23]; [31; 32; 33]]%N /\
+       match replay 3 3 (image chunks [0; 0; 0]%N) l with
+       | Ok m => firstn 9 m = [11; 12; 13;  21; 22; 23;  31; 32; 33]%N
+       | _ => False
+       end
+     | _ => False
+     end).
+Proof.
+  cbv zeta. repeat (split; [vm_compute; reflexivity|]).
+  split; [repeat constructor|]. split; [reflexivity|]. intros sel [<-|[<-|[<-|[<-|[]]]]]; vm_compute; auto.
+Qed.
+
 Print Assumptions C11_partition.
 Print Assumptions C11_sort_sorted_permutation.
 Print Assumptions C11_sort_selector_fallback.
@@ -161,3 +317,12 @@ Print Assumptions C11_search.
 Print Assumptions C11_find_first.
 Print Assumptions C11_reverse.
 Print Assumptions C11_sort_result_independent_of_fuel.
+Print Assumptions C11_log_determines_result.
+Print Assumptions C11_swap_bytes.
+Print Assumptions C11_swap_bytes_self.
+Print Assumptions C11_replay_bytes.
+Print Assumptions C11_replay_bytes_scratch.
+Print Assumptions C11_sort_bytes.
+Print Assumptions C11_sort_bytes_any_run.
+Print Assumptions C11_reverse_bytes.
+Print Assumptions C11_image_injective.
